@@ -1,5 +1,5 @@
 CONSTANTS P = 43  A = 0  B = 7  Gx = 2  Gy = 12  N = 31
-          R = 2  Concrete = TRUE  B1 = 16  B2 = 23  MaxCoef = 100000  MaxSteps = 3  Emit = FALSE
+          R = 2  Concrete = TRUE  B1 = 16  B2 = 23  MaxCoef = 100000  MaxSteps = 3  Emit = FALSE  Family = "wide"
 SPECIFICATION CSpec
 INVARIANTS RegsRepresent EqualScalarsEqualPoints
 CHECK_DEADLOCK FALSE
